@@ -185,19 +185,19 @@ Lemma np_subpacket_length : forall sp, np (subpacket_length sp).
 Proof. intros. unfold subpacket_length. repeat np_step. Qed.
 
 (* unfolding equations of the mutual fixpoint *)
-Lemma parse_sig4_S : forall f v t a h l1 l2 rest,
-  parse_sig4 (S f) (v :: t :: a :: h :: l1 :: l2 :: rest) =
+Lemma parse_sig4_S : forall f emb v t a h l1 l2 rest,
+  parse_sig4 (S f) emb (v :: t :: a :: h :: l1 :: l2 :: rest) =
   if negb (v =? 4) then Err "signature packet version"
   else if negb (sig4_algo_ok a) then Err "public key algorithm"
   else if negb (hash_known h) then Err "hash function"
   else
     let* (hashed, r1) := need (N.to_nat (l1 * 256 + l2)) rest in
-    let* st1 := parse_subpackets f (mksstate false None false) hashed true in
+    let* st1 := parse_subpackets f emb (mksstate false None false) hashed true in
     if negb (ss_created st1) then Err "no creation time in signature"
     else
       let* (ul, r2) := need 2 r1 in
       let* (unhashed, r3) := need (N.to_nat (nth 0 ul 0 * 256 + nth 1 ul 0)) r2 in
-      let* st2 := parse_subpackets f st1 unhashed false in
+      let* st2 := parse_subpackets f emb st1 unhashed false in
       let* (_, r4) := need 2 r3 in
       match sig_mpis a with
       | None => Panic "unreachable (signature.go:181)"
@@ -205,22 +205,22 @@ Lemma parse_sig4_S : forall f v t a h l1 l2 rest,
       end.
 Proof. reflexivity. Qed.
 
-Lemma np_parse_sig4_short : forall fuel c, (length c < 6)%nat -> np (parse_sig4 fuel c).
+Lemma np_parse_sig4_short : forall fuel emb c, (length c < 6)%nat -> np (parse_sig4 fuel emb c).
 Proof.
-  intros fuel c H.
+  intros fuel emb c H.
   destruct c as [|v [|t [|a [|h [|l1 [|l2 rest]]]]]]; cbn [length] in H; try lia;
     destruct fuel; cbn [parse_sig4]; repeat np_step.
 Qed.
 
 Lemma np_sig4 : forall fuel,
-  (forall c, np (parse_sig4 fuel c)) /\ (forall st sp h, np (parse_subpackets fuel st sp h)).
+  (forall emb c, np (parse_sig4 fuel emb c)) /\ (forall emb st sp h, np (parse_subpackets fuel emb st sp h)).
 Proof.
   induction fuel as [|f [IH4 IHs]].
   - split.
-    + intros c. destruct c as [|v [|t [|a [|h [|l1 [|l2 rest]]]]]]; cbn [parse_sig4]; repeat np_step.
-    + intros st [|x sp] h; reflexivity.
+    + intros emb c. destruct c as [|v [|t [|a [|h [|l1 [|l2 rest]]]]]]; cbn [parse_sig4]; repeat np_step.
+    + intros emb st [|x sp] h; reflexivity.
   - split.
-    + intros c. destruct (Nat.ltb (length c) 6) eqn:E.
+    + intros emb c. destruct (Nat.ltb (length c) 6) eqn:E.
       * apply np_parse_sig4_short. apply Nat.ltb_lt. exact E.
       * destruct c as [|v [|t [|a [|h [|l1 [|l2 rest]]]]]]; cbn [length] in E; try discriminate.
         rewrite parse_sig4_S.
@@ -229,13 +229,13 @@ Proof.
         destruct (negb (hash_known h)); [reflexivity|].
         apply Bool.negb_false_iff in Ea. destruct (sig4_mpis_some a Ea) as [k Hk]. rewrite Hk.
         repeat (first [apply np_need | apply IHs | apply np_read_mpis | np_step]).
-    + intros st [|x sp] h; [reflexivity|].
+    + intros emb st [|x sp] h; [reflexivity|].
       cbn [parse_subpackets].
       apply np_bind; [apply np_subpacket_length|]. intros [len body] _.
       repeat (first [apply IHs | apply IH4 | np_step]).
 Qed.
 
-Lemma np_parse_sig4 : forall fuel c, np (parse_sig4 fuel c).
+Lemma np_parse_sig4 : forall fuel emb c, np (parse_sig4 fuel emb c).
 Proof. intros. apply np_sig4. Qed.
 
 Lemma np_parse_sig3 : forall c, np (parse_sig3 c).
@@ -906,22 +906,22 @@ Proof.
       rewrite be_to_N_to_be4 by exact Hb. subst n. rewrite firstn_N_all. reflexivity.
 Qed.
 
-Lemma parse_subpackets_nil : forall f st h, parse_subpackets f st [] h = Ok st.
-Proof. intros [|f] st h; reflexivity. Qed.
+Lemma parse_subpackets_nil : forall f emb st h, parse_subpackets f emb st [] h = Ok st.
+Proof. intros [|f] emb st h; reflexivity. Qed.
 
-Lemma sub_created : forall f st c1 c2 c3 c4,
-  parse_subpackets (S f) st [5; 2; c1; c2; c3; c4] true
+Lemma sub_created : forall f emb st c1 c2 c3 c4,
+  parse_subpackets (S f) emb st [5; 2; c1; c2; c3; c4] true
   = Ok (mksstate true (ss_issuer st) (ss_embedded st)).
 Proof.
-  intros. transitivity (parse_subpackets f (mksstate true (ss_issuer st) (ss_embedded st)) [] true);
+  intros. transitivity (parse_subpackets f emb (mksstate true (ss_issuer st) (ss_embedded st)) [] true);
     [reflexivity|apply parse_subpackets_nil].
 Qed.
 
-Lemma sub_issuer : forall f st i1 i2 i3 i4 i5 i6 i7 i8,
-  parse_subpackets (S f) st [9; 16; i1; i2; i3; i4; i5; i6; i7; i8] false
+Lemma sub_issuer_canon : forall f emb st i1 i2 i3 i4 i5 i6 i7 i8,
+  parse_subpackets (S f) emb st [9; 16; i1; i2; i3; i4; i5; i6; i7; i8] false
   = Ok (mksstate (ss_created st) (Some (be_to_N [i1; i2; i3; i4; i5; i6; i7; i8])) (ss_embedded st)).
 Proof.
-  intros. transitivity (parse_subpackets f (mksstate (ss_created st) (Some (be_to_N [i1; i2; i3; i4; i5; i6; i7; i8])) (ss_embedded st)) [] false);
+  intros. transitivity (parse_subpackets f emb (mksstate (ss_created st) (Some (be_to_N [i1; i2; i3; i4; i5; i6; i7; i8])) (ss_embedded st)) [] false);
     [reflexivity|apply parse_subpackets_nil].
 Qed.
 
@@ -930,7 +930,7 @@ Lemma parse_sig4_canon : forall t a h c1 c2 c3 c4 i1 i2 i3 i4 i5 i6 i7 i8 h1 h2 
   forallb (fun m => lenN m <? 8192) mpis = true ->
   let body := 4 :: t :: a :: h :: 0 :: 6 :: 5 :: 2 :: c1 :: c2 :: c3 :: c4 :: 0 :: 10 :: 9 :: 16
                 :: i1 :: i2 :: i3 :: i4 :: i5 :: i6 :: i7 :: i8 :: h1 :: h2 :: flat_map enc_mpi mpis in
-  parse_sig4 (length body) body = Ok (PSig4 t a h (Some (be_to_N [i1; i2; i3; i4; i5; i6; i7; i8]))).
+  parse_sig4 (length body) false body = Ok (PSig4 t a h (Some (be_to_N [i1; i2; i3; i4; i5; i6; i7; i8]))).
 Proof.
   intros t a h c1 c2 c3 c4 i1 i2 i3 i4 i5 i6 i7 i8 h1 h2 mpis k Ha Hh Hk Hlen Hm body. subst body.
   cbn [length]. rewrite parse_sig4_S.
@@ -941,7 +941,7 @@ Proof.
   unfold need at 1. cbn [length Nat.ltb Nat.leb firstn skipn bind nth].
   change (N.to_nat (0 * 256 + 10)) with 10%nat.
   unfold need at 1. cbn [length Nat.ltb Nat.leb firstn skipn bind].
-  rewrite sub_issuer. cbn [bind ss_issuer].
+  rewrite sub_issuer_canon. cbn [bind ss_issuer].
   unfold need at 1. cbn [length Nat.ltb Nat.leb firstn skipn bind].
   rewrite Hk. subst k. rewrite <- (app_nil_r (flat_map enc_mpi mpis)).
   rewrite read_mpis_enc by exact Hm. reflexivity.
@@ -1425,15 +1425,15 @@ Proof.
 Qed.
 
 Lemma sig4_fuel : forall fuel,
-  (forall c, (length c <= fuel)%nat -> nf (parse_sig4 fuel c)) /\
-  (forall st sp h, (length sp <= fuel)%nat -> nf (parse_subpackets fuel st sp h)).
+  (forall emb c, (length c <= fuel)%nat -> nf (parse_sig4 fuel emb c)) /\
+  (forall emb st sp h, (length sp <= fuel)%nat -> nf (parse_subpackets fuel emb st sp h)).
 Proof.
   induction fuel as [|f [IH4 IHs]].
   - split.
-    + intros c Hc. destruct c; [|cbn in Hc; lia]. cbn. unfold nf. discriminate.
-    + intros st sp h Hc. destruct sp; [|cbn in Hc; lia]. cbn. unfold nf. discriminate.
+    + intros emb c Hc. destruct c; [|cbn in Hc; lia]. cbn. unfold nf. discriminate.
+    + intros emb st sp h Hc. destruct sp; [|cbn in Hc; lia]. cbn. unfold nf. discriminate.
   - split.
-    + intros c Hc.
+    + intros emb c Hc.
       destruct c as [|v [|t [|a [|h [|l1 [|l2 rest]]]]]];
         try (cbn [parse_sig4]; repeat nf_step; fail).
       rewrite parse_sig4_S. cbn [length] in Hc.
@@ -1453,7 +1453,7 @@ Proof.
       apply nf_bind; [apply nf_need|]. intros [x r4] _.
       destruct (sig_mpis a); [|unfold nf; discriminate].
       apply nf_bind; [apply nf_read_mpis|]. intros. unfold nf. discriminate.
-    + intros st sp h Hc. destruct sp as [|x sp']; [cbn; unfold nf; discriminate|].
+    + intros emb st sp h Hc. destruct sp as [|x sp']; [cbn; unfold nf; discriminate|].
       cbn [parse_subpackets].
       apply nf_bind; [apply nf_subpacket_length|]. intros [len body] Hsl.
       apply subpacket_length_shorter in Hsl. cbn [length] in Hsl, Hc.
@@ -1465,7 +1465,7 @@ Proof.
       repeat (first [apply IHs; exact Lrest | apply IH4; exact Lpay | nf_step]).
 Qed.
 
-Lemma parse_sig4_fuel : forall c, parse_sig4 (length c) c <> Err "fuel".
+Lemma parse_sig4_fuel : forall emb c, parse_sig4 (length c) emb c <> Err "fuel".
 Proof. intros. apply (proj1 (sig4_fuel (length c))). lia. Qed.
 
 (* ================================================================ witnesses: non-vacuity and the pre-repair code *)
@@ -1569,3 +1569,1047 @@ Proof.
       destruct (c <? 255); [|reflexivity].
       f_equal. apply IH; lia.
 Qed.
+
+(* ################################################################ ARBITRARY LAYOUTS (Model/Rpm.v Part 5) *)
+
+(* ================================================================ arbitrary layouts: strings *)
+
+Lemma split_nul_spec : forall l s t, split_nul l = Some (s, t) -> l = s ++ 0 :: t /\ until_nul l = s.
+Proof.
+  induction l as [|b l IH]; intros s t H; [discriminate|].
+  cbn [split_nul until_nul] in *. destruct (b =? 0) eqn:E.
+  - inversion H; subst. apply N.eqb_eq in E. subst b. split; reflexivity.
+  - destruct (split_nul l) as [[s' t']|]; [|discriminate]. inversion H; subst.
+    destruct (IH s' t eq_refl) as [E1 E2]. split; [cbn; f_equal; exact E1|f_equal; exact E2].
+Qed.
+
+Lemma strings_at_len : forall cnt l ls, strings_at cnt l = Some ls -> (cnt <= length l)%nat.
+Proof.
+  induction cnt as [|c IH]; intros l ls H; [lia|].
+  cbn [strings_at] in H. destruct (split_nul l) as [[s t]|] eqn:E; [|discriminate].
+  destruct (strings_at c t) as [r|] eqn:Er; [|discriminate].
+  apply split_nul_spec in E as [E _]. apply IH in Er. subst l. rewrite app_length. cbn [length]. lia.
+Qed.
+
+Lemma skipn_S_app : forall (s t : bytes) x, skipn (S (length s)) (s ++ x :: t) = t.
+Proof. intros. replace (s ++ x :: t) with ((s ++ [x]) ++ t) by (rewrite <- app_assoc; reflexivity).
+  apply skipn_app_exact. rewrite app_length. cbn. lia. Qed.
+
+Lemma extract_strings_at : forall cnt store o ls,
+  strings_at cnt (skipn (N.to_nat o) store) = Some ls -> extract_strings store cnt o = Ok ls.
+Proof.
+  induction cnt as [|c IH]; intros store o ls H.
+  - cbn in H. inversion H. reflexivity.
+  - cbn [strings_at] in H. cbn [extract_strings].
+    destruct (split_nul (skipn (N.to_nat o) store)) as [[s t]|] eqn:E; [|discriminate].
+    destruct (strings_at c t) as [r|] eqn:Er; [|discriminate]. inversion H; subst ls. clear H.
+    apply split_nul_spec in E as [E Eu].
+    assert (Hl : length (skipn (N.to_nat o) store) = (length s + 1 + length t)%nat)
+      by (rewrite E, app_length; cbn [length]; lia).
+    rewrite skipn_length in Hl.
+    assert (Ho : (lenN store <? o) = false) by (unfold lenN; lia). rewrite Ho, Eu.
+    assert (Hj : (lenN s =? lenN store) = false) by (unfold lenN; lia). rewrite Hj.
+    rewrite (IH store (o + lenN s + 1) r); [reflexivity|].
+    replace (N.to_nat (o + lenN s + 1)) with (S (length s) + N.to_nat o)%nat by (unfold lenN; lia).
+    rewrite <- skipn_skipn, E, skipn_S_app. exact Er.
+Qed.
+
+Lemma strings_fit_at : forall cnt l ls, strings_at cnt l = Some ls -> strings_fit cnt l = true.
+Proof.
+  induction cnt as [|c IH]; intros l ls H; [reflexivity|].
+  cbn [strings_at] in H. cbn [strings_fit].
+  destruct (split_nul l) as [[s t]|] eqn:E; [|discriminate].
+  destruct (strings_at c t) as [r|] eqn:Er; [|discriminate].
+  apply split_nul_spec in E as [E Eu]. rewrite Eu.
+  assert (Hn : Nat.eqb (length s) (length l) = false).
+  { apply Nat.eqb_neq. rewrite E. rewrite app_length. cbn [length]. lia. }
+  rewrite Hn. rewrite E. rewrite skipn_S_app. eapply IH. exact Er.
+Qed.
+
+(* ================================================================ arbitrary layouts: one entry *)
+
+Lemma gent_ok_facts : forall store e, gent_ok store e = true ->
+  ge_tag e < 4294967296 /\ ge_cnt e < 4294967296 /\ ge_off e < lenN store /\ ge_type e <= 9.
+Proof.
+  intros store e H. unfold gent_ok in H. cbv zeta in H.
+  apply andb_prop in H as [H Ht]. apply andb_prop in H as [H Ho]. apply andb_prop in H as [Htag Hc].
+  repeat split; try lia.
+  destruct (ge_type e =? 0) eqn:E0; [lia|].
+  destruct (is_fixed_type (ge_type e)) eqn:Ef; [unfold is_fixed_type in Ef; lia|].
+  destruct (is_string_type (ge_type e)) eqn:Es; [unfold is_string_type in Es; lia|discriminate].
+Qed.
+
+Lemma slice_mul1 : forall o c l, slice o (c * 1) l = slice o c l.
+Proof. intros. rewrite N.mul_1_r. reflexivity. Qed.
+
+Lemma extract_value_gent : forall store e, gent_ok store e = true ->
+  extract_value store (ge_type e) (ge_off e) (ge_cnt e) = Ok (gent_value store e).
+Proof.
+  intros store e H. pose proof (gent_ok_facts store e H) as (_ & _ & Hoff & _).
+  unfold gent_ok in H. cbv zeta in H.
+  apply andb_prop in H as [_ H].
+  unfold extract_value, gent_value. cbv zeta.
+  destruct (ge_type e =? 0) eqn:E0; [reflexivity|].
+  destruct (is_fixed_type (ge_type e)) eqn:Ef.
+  - unfold is_fixed_type in Ef.
+    destruct (ge_type e <=? 5) eqn:E5.
+    + assert (E7 : (ge_type e =? 7) = false) by lia. rewrite E7, Bool.orb_false_r.
+      change (int_size (ge_type e)) with (item_size (ge_type e)).
+      assert (Hr : ((0 <? ge_cnt e) && (lenN store <? ge_off e + ge_cnt e * item_size (ge_type e))) = false) by lia.
+      rewrite Hr. destruct (ge_type e =? 1) eqn:E1; [|reflexivity].
+      apply N.eqb_eq in E1. rewrite E1. change (item_size 1) with 1. rewrite slice_mul1. reflexivity.
+    + assert (E7 : (ge_type e =? 7) = true) by lia. rewrite E7, Bool.orb_true_r.
+      apply N.eqb_eq in E7. rewrite E7 in H. change (item_size 7) with 1 in H.
+      assert (Hr : (lenN store <? ge_off e + ge_cnt e) = false) by lia. rewrite Hr. reflexivity.
+  - destruct (is_string_type (ge_type e)) eqn:Es; [|discriminate].
+    unfold is_fixed_type in Ef. unfold is_string_type in Es.
+    assert (E5 : (ge_type e <=? 5) = false) by lia. assert (E7 : (ge_type e =? 7) = false) by lia.
+    assert (E1 : (ge_type e =? 1) = false) by lia.
+    rewrite E5, E7, E1, Es. cbn [orb].
+    destruct (ge_cnt e <=? lenN store) eqn:Ec; [|discriminate].
+    destruct (strings_at (N.to_nat (ge_cnt e)) (skipn (N.to_nat (ge_off e)) store)) as [ls|] eqn:Els; [|discriminate].
+    pose proof (strings_at_len _ _ _ Els) as Hl. rewrite skipn_length in Hl.
+    assert (Hr : (lenN store <? ge_off e + ge_cnt e) = false) by (unfold lenN in *; lia). rewrite Hr.
+    rewrite (extract_strings_at _ _ _ _ Els). reflexivity.
+Qed.
+
+Lemma entry_fits_gent : forall store e, gent_ok store e = true ->
+  entry_fits store (ge_type e) (ge_off e) (ge_cnt e) = true.
+Proof.
+  intros store e H. pose proof (gent_ok_facts store e H) as (_ & _ & Hoff & _).
+  unfold gent_ok in H. cbv zeta in H. apply andb_prop in H as [_ H].
+  unfold entry_fits. cbv zeta.
+  assert (Ho : (lenN store <? ge_off e) = false) by lia. rewrite Ho.
+  destruct (ge_type e =? 0) eqn:E0.
+  { apply N.eqb_eq in E0. rewrite E0. reflexivity. }
+  destruct (is_fixed_type (ge_type e)) eqn:Ef.
+  - unfold is_fixed_type in Ef. unfold item_size in H.
+    destruct (ge_type e =? 3) eqn:E3.
+    { assert (X : ((ge_type e =? 1) || (ge_type e =? 2) || (ge_type e =? 7)) = false) by lia. rewrite X.
+      apply N.leb_le. apply N.div_le_lower_bound; lia. }
+    destruct (ge_type e =? 4) eqn:E4.
+    { assert (X : ((ge_type e =? 1) || (ge_type e =? 2) || (ge_type e =? 7)) = false) by lia. rewrite X.
+      apply N.leb_le. apply N.div_le_lower_bound; lia. }
+    destruct (ge_type e =? 5) eqn:E5.
+    { assert (X : ((ge_type e =? 1) || (ge_type e =? 2) || (ge_type e =? 7)) = false) by lia. rewrite X.
+      apply N.leb_le. apply N.div_le_lower_bound; lia. }
+    assert (X : ((ge_type e =? 1) || (ge_type e =? 2) || (ge_type e =? 7)) = true) by lia. rewrite X. lia.
+  - destruct (is_string_type (ge_type e)) eqn:Es; [|discriminate].
+    unfold is_fixed_type in Ef. unfold is_string_type in Es.
+    assert (X : ((ge_type e =? 1) || (ge_type e =? 2) || (ge_type e =? 7)) = false) by lia. rewrite X.
+    assert (E3 : (ge_type e =? 3) = false) by lia. assert (E4 : (ge_type e =? 4) = false) by lia.
+    assert (E5 : (ge_type e =? 5) = false) by lia. rewrite E3, E4, E5, Es.
+    destruct (ge_cnt e <=? lenN store) eqn:Ec; [|discriminate].
+    destruct (strings_at (N.to_nat (ge_cnt e)) (skipn (N.to_nat (ge_off e)) store)) as [ls|] eqn:Els; [|discriminate].
+    pose proof (strings_at_len _ _ _ Els) as Hl. rewrite skipn_length in Hl.
+    assert (Hr : (ge_cnt e <=? lenN store - ge_off e) = true) by (unfold lenN in *; lia). rewrite Hr.
+    eapply strings_fit_at. exact Els.
+Qed.
+
+(* ================================================================ arbitrary layouts: the index *)
+
+Definition graw (e : gent) : entry := mkentry (ge_tag e) (ge_type e) (ge_off e) (ge_cnt e) VNull.
+
+Lemma length_enc_gent : forall e, length (enc_gent e) = 16%nat.
+Proof. intros. unfold enc_gent. rewrite !app_length, !length_N_to_be. reflexivity. Qed.
+
+Lemma length_flat_enc_gent : forall idx, length (flat_map enc_gent idx) = (16 * length idx)%nat.
+Proof.
+  induction idx as [|e r IH]; [reflexivity|]. cbn [flat_map length].
+  rewrite app_length, length_enc_gent, IH. lia.
+Qed.
+
+Lemma forallb_Forall : forall A (f : A -> bool) l, forallb f l = true -> Forall (fun x => f x = true) l.
+Proof. intros A f l H. apply Forall_forall. apply forallb_forall. exact H. Qed.
+
+Lemma parse_index_genc : forall store idx rest,
+  forallb (gent_ok store) idx = true -> lenN store < 4294967296 ->
+  parse_index (length idx) (flat_map enc_gent idx ++ rest) (lenN store) = Ok (map graw idx).
+Proof.
+  intros store. induction idx as [|e r IH]; intros rest H Hlen; [reflexivity|].
+  cbn [forallb] in H. apply andb_prop in H as [He Hr].
+  destruct (gent_ok_facts _ _ He) as (Htag & Hcnt & Hoff & Hty).
+  cbn [flat_map length parse_index map]. set (more := flat_map enc_gent r) in *.
+  unfold enc_gent. rewrite <- !app_assoc.
+  destruct (be32_fields (N_to_be 4 (ge_tag e)) (N_to_be 4 (ge_type e)) (N_to_be 4 (ge_off e)) (N_to_be 4 (ge_cnt e))
+              (more ++ rest)
+              (length_N_to_be _ _) (length_N_to_be _ _) (length_N_to_be _ _) (length_N_to_be _ _))
+    as (E0 & E4 & E8 & E12 & E16).
+  rewrite E0, E4, E8, E12, E16. cbn [e_off].
+  rewrite !be_to_N_to_be4 by lia.
+  assert (Hlt : (lenN store <=? ge_off e) = false) by lia. rewrite Hlt.
+  subst more. rewrite IH by assumption. reflexivity.
+Qed.
+
+Lemma extract_all_genc : forall store idx,
+  forallb (gent_ok store) idx = true ->
+  extract_all store (map graw idx) = Ok (map (gent_view store) idx).
+Proof.
+  intros store. induction idx as [|e r IH]; intros H; [reflexivity|].
+  cbn [forallb] in H. apply andb_prop in H as [He Hr].
+  cbn [map extract_all graw e_type e_off e_cnt e_tag].
+  rewrite extract_value_gent by exact He. cbn [bind]. rewrite IH by exact Hr. reflexivity.
+Qed.
+
+Lemma index_fits_genc : forall store idx rest,
+  forallb (gent_ok store) idx = true -> lenN store < 4294967296 ->
+  index_fits (length idx) (flat_map enc_gent idx ++ rest) store = true.
+Proof.
+  intros store. induction idx as [|e r IH]; intros rest H Hs; [reflexivity|].
+  cbn [forallb] in H. apply andb_prop in H as [He Hr].
+  destruct (gent_ok_facts _ _ He) as (Htag & Hcnt & Hoff & Hty).
+  cbn [flat_map length index_fits]. set (more := flat_map enc_gent r) in *.
+  unfold enc_gent. rewrite <- !app_assoc.
+  destruct (be32_fields (N_to_be 4 (ge_tag e)) (N_to_be 4 (ge_type e)) (N_to_be 4 (ge_off e)) (N_to_be 4 (ge_cnt e))
+              (more ++ rest)
+              (length_N_to_be _ _) (length_N_to_be _ _) (length_N_to_be _ _) (length_N_to_be _ _))
+    as (E0 & E4 & E8 & E12 & E16).
+  rewrite E4, E8, E12, E16.
+  rewrite !be_to_N_to_be4 by lia.
+  rewrite entry_fits_gent by exact He. cbn [andb]. subst more. apply IH; assumption.
+Qed.
+
+(* ================================================================ arbitrary layouts: one header structure *)
+
+Record ghdr_facts (h : ghdr) : Prop := mk_ghdr_facts {
+  hf_version : gh_version h < 256;
+  hf_reserved : length (gh_reserved h) = 4%nat;
+  hf_count : 16 * lenN (gh_index h) <= max_header_size;
+  hf_size : lenN (gh_store h) <= max_header_size;
+  hf_entries : forallb (gent_ok (gh_store h)) (gh_index h) = true }.
+
+Lemma ghdr_ok_facts : forall h, ghdr_ok h = true -> ghdr_facts h.
+Proof.
+  intros h H. unfold ghdr_ok in H.
+  apply andb_prop in H as [H He]. apply andb_prop in H as [H Hs]. apply andb_prop in H as [H Hc].
+  apply andb_prop in H as [Hv Hr]. constructor; first [assumption | lia].
+Qed.
+
+Lemma length_ghdr_intro : forall h, ghdr_facts h -> length (ghdr_intro h) = 16%nat.
+Proof.
+  intros h F. unfold ghdr_intro. rewrite !app_length, !length_N_to_be, (hf_reserved h F). reflexivity.
+Qed.
+
+Lemma ghdr_intro_fields : forall h, ghdr_facts h ->
+  firstn 3 (ghdr_intro h) = header_magic /\ nth 3 (ghdr_intro h) 0 = gh_version h /\
+  be32_at 8 (ghdr_intro h) = lenN (gh_index h) /\ be32_at 12 (ghdr_intro h) = lenN (gh_store h).
+Proof.
+  intros h F. pose proof (hf_reserved h F) as Hr. pose proof (hf_count h F) as Hc. pose proof (hf_size h F) as Hs.
+  unfold max_header_size in *. unfold ghdr_intro.
+  destruct (gh_reserved h) as [|r1 [|r2 [|r3 [|r4 [|]]]]]; try discriminate.
+  remember (N_to_be 4 (lenN (gh_index h))) as A eqn:EA.
+  assert (HA : length A = 4%nat) by (subst A; apply length_N_to_be).
+  remember (N_to_be 4 (lenN (gh_store h))) as B eqn:EB.
+  assert (HB : length B = 4%nat) by (subst B; apply length_N_to_be).
+  destruct A as [|a1 [|a2 [|a3 [|a4 [|]]]]]; try discriminate.
+  destruct B as [|b1 [|b2 [|b3 [|b4 [|]]]]]; try discriminate.
+  repeat split.
+  - unfold be32_at. cbn [header_magic app skipn firstn]. rewrite EA. apply be_to_N_to_be4. lia.
+  - unfold be32_at. cbn [header_magic app skipn firstn]. rewrite EB. apply be_to_N_to_be4. lia.
+Qed.
+
+Lemma nonempty_app_r : forall (a b : bytes), b <> [] -> a ++ b <> [].
+Proof. intros a b H E. apply app_eq_nil in E as [_ E]. contradiction. Qed.
+
+(* go-rpm's ReadPackageHeader on an arbitrary well-formed header structure *)
+Lemma read_header_genc : forall h rest, ghdr_facts h ->
+  gh_store h ++ rest <> [] ->
+  pad_len (lenN (gh_store h)) <= lenN rest ->
+  read_header (enc_ghdr h ++ rest) =
+  Ok (ghdr_view h, skipn (N.to_nat (pad_len (lenN (gh_store h)))) rest).
+Proof.
+  intros h rest F Hne Hpad.
+  pose proof (hf_count h F) as Hc. pose proof (hf_size h F) as Hs. unfold max_header_size in Hc, Hs.
+  destruct (ghdr_intro_fields h F) as (Hmagic & Hver & Ecnt & Elen).
+  pose proof (length_ghdr_intro h F) as Hli.
+  unfold read_header, enc_ghdr. rewrite <- !app_assoc.
+  rewrite read_exact_app;
+    [|unfold lenN; rewrite Hli; reflexivity
+     |intros E; apply (f_equal (@length N)) in E; rewrite app_length, Hli in E; cbn in E; lia].
+  cbn [bind]. rewrite Hmagic, Hver.
+  change (bytes_eqb header_magic header_magic) with true. cbn [negb]. cbv zeta.
+  rewrite Ecnt, Elen. unfold max_header_size.
+  assert (H1 : (33554432 <? lenN (gh_store h)) = false) by lia. rewrite H1.
+  assert (H2 : (33554432 <? lenN (gh_index h) * 16) = false) by lia. rewrite H2.
+  rewrite read_exact_app;
+    [|unfold lenN; rewrite length_flat_enc_gent; lia
+     |apply nonempty_app_r; exact Hne].
+  cbn [bind]. rewrite to_nat_lenN.
+  rewrite <- (app_nil_r (flat_map enc_gent (gh_index h))).
+  rewrite parse_index_genc by (try apply (hf_entries h F); lia). cbn [bind].
+  rewrite read_exact_app by (reflexivity || exact Hne). cbn [bind].
+  rewrite extract_all_genc by apply (hf_entries h F). cbn [bind].
+  rewrite skip_pad_app by exact Hpad. cbn [bind]. reflexivity.
+Qed.
+
+(* rpmCheckIndex on an arbitrary well-formed header structure *)
+Lemma check_header_genc : forall h rest, ghdr_facts h ->
+  check_header (enc_ghdr h ++ rest) = Ok (Some (skipn (N.to_nat (pad_len (lenN (gh_store h)))) rest)).
+Proof.
+  intros h rest F.
+  pose proof (hf_count h F) as Hc. pose proof (hf_size h F) as Hs. unfold max_header_size in Hc, Hs.
+  destruct (ghdr_intro_fields h F) as (_ & _ & Ecnt & Elen).
+  pose proof (length_ghdr_intro h F) as Hli.
+  unfold check_header, enc_ghdr. rewrite <- !app_assoc.
+  set (idx := flat_map enc_gent (gh_index h)).
+  assert (H16 : (lenN (ghdr_intro h ++ idx ++ gh_store h ++ rest) <? 16) = false).
+  { rewrite lenN_app. unfold lenN at 1. rewrite Hli. lia. }
+  rewrite H16.
+  rewrite !be32_at_app by (rewrite Hli; lia). rewrite Ecnt, Elen.
+  rewrite skipn_app_exact by (rewrite Hli; reflexivity).
+  assert (Hidx : lenN idx = 16 * lenN (gh_index h)) by (subst idx; unfold lenN; rewrite length_flat_enc_gent; lia).
+  assert (H1 : (lenN (idx ++ gh_store h ++ rest) / 16 <? lenN (gh_index h)) = false).
+  { apply N.ltb_ge. apply N.div_le_lower_bound; [lia|]. rewrite lenN_app. lia. }
+  rewrite H1.
+  replace (N.to_nat (16 * lenN (gh_index h))) with (length idx) by (subst idx; rewrite length_flat_enc_gent; unfold lenN; lia).
+  rewrite firstn_app_exact, skipn_app_exact by reflexivity.
+  assert (H2 : (lenN (gh_store h ++ rest) <? lenN (gh_store h)) = false) by (rewrite lenN_app; lia).
+  rewrite H2. rewrite !to_nat_lenN, firstn_app_exact, skipn_app_exact by reflexivity.
+  pose proof (index_fits_genc (gh_store h) (gh_index h) [] (hf_entries h F)) as Hf.
+  rewrite app_nil_r in Hf. fold idx in Hf. rewrite Hf by lia. cbn [negb].
+  unfold pad_len. destruct (lenN (gh_store h) mod 8 =? 0) eqn:E.
+  - apply N.eqb_eq in E. rewrite E. reflexivity.
+  - apply N.eqb_neq in E. pose proof (N.mod_lt (lenN (gh_store h)) 8 ltac:(lia)).
+    rewrite (N.mod_small (8 - _) 8) by lia. reflexivity.
+Qed.
+
+(* ================================================================ arbitrary layouts: the package *)
+
+Record gpkg_facts (g : gpkg) : Prop := mk_gpkg_facts {
+  gf_major : gp_major g = 3 \/ gp_major g = 4;
+  gf_lead : length (gp_leadrest g) = 90%nat;
+  gf_sig : ghdr_facts (gp_sig g);
+  gf_main : ghdr_facts (gp_main g);
+  gf_pad : lenN (gp_pad g) = pad_len (lenN (gh_store (gp_sig g)));
+  gf_payload : pad_len (lenN (gh_store (gp_main g))) <= lenN (gp_payload g);
+  gf_nonempty : 0 < lenN (gh_store (gp_main g)) + lenN (gp_payload g) }.
+
+Lemma gpkg_ok_facts : forall g, gpkg_ok g = true -> gpkg_facts g.
+Proof.
+  intros g H. unfold gpkg_ok in H.
+  apply andb_prop in H as [H Hne]. apply andb_prop in H as [H Hpay]. apply andb_prop in H as [H Hpad].
+  apply andb_prop in H as [H Hmain]. apply andb_prop in H as [H Hsig]. apply andb_prop in H as [Hmaj Hl].
+  constructor; first [lia | apply ghdr_ok_facts; assumption].
+Qed.
+
+Lemma length_glead : forall g, gpkg_facts g -> length (glead g) = 96%nat.
+Proof. intros g F. unfold glead. rewrite !app_length, (gf_lead g F). reflexivity. Qed.
+
+Lemma read_lead_genc : forall g rest, gpkg_facts g ->
+  read_lead (glead g ++ rest) = Ok (mklead (gp_major g) (gp_minor g), rest).
+Proof.
+  intros g rest F. unfold read_lead.
+  rewrite read_exact_app;
+    [|unfold lenN; rewrite length_glead by exact F; reflexivity
+     |intros E; apply (f_equal (@length N)) in E; rewrite app_length, length_glead in E by exact F; discriminate].
+  cbn [bind].
+  assert (H4 : firstn 4 (glead g) = rpm_magic) by reflexivity. rewrite H4.
+  change (bytes_eqb rpm_magic rpm_magic) with true. cbn [negb].
+  assert (Hm : nth 4 (glead g) 0 = gp_major g) by reflexivity.
+  assert (Hn : nth 5 (glead g) 0 = gp_minor g) by reflexivity.
+  rewrite Hm, Hn.
+  assert (Hv : ((gp_major g <? 3) || (4 <? gp_major g)) = false) by (destruct (gf_major g F) as [->| ->]; reflexivity).
+  rewrite Hv. reflexivity.
+Qed.
+
+Lemma enc_ghdr_nonempty : forall h rest, ghdr_facts h -> enc_ghdr h ++ rest <> [].
+Proof.
+  intros h rest F E. apply (f_equal (@length N)) in E. unfold enc_ghdr in E.
+  rewrite !app_length, length_ghdr_intro in E by exact F. cbn in E. lia.
+Qed.
+
+Lemma main_nonempty : forall g, gpkg_facts g -> gh_store (gp_main g) ++ gp_payload g <> [].
+Proof.
+  intros g F E. pose proof (gf_nonempty g F) as H. apply (f_equal lenN) in E.
+  rewrite lenN_app, lenN_nil in E. lia.
+Qed.
+
+(* go-rpm returns, for EVERY well-formed layout, the declared entries with the typed values
+   that lie at the declared offsets *)
+Lemma parse_gencode : forall g, gpkg_ok g = true -> read_package_file (gencode g) = Ok (gview g).
+Proof.
+  intros g Hok. apply gpkg_ok_facts in Hok as F.
+  unfold read_package_file, gencode.
+  rewrite read_lead_genc by exact F. cbn [bind].
+  rewrite read_header_genc;
+    [|exact (gf_sig g F)
+     |apply nonempty_app_r, nonempty_app_r, enc_ghdr_nonempty; exact (gf_main g F)
+     |rewrite lenN_app, (gf_pad g F); lia].
+  cbn [bind].
+  rewrite <- (gf_pad g F), to_nat_lenN, skipn_app_exact by reflexivity.
+  rewrite read_header_genc; [|exact (gf_main g F)|apply main_nonempty; exact F|exact (gf_payload g F)].
+  reflexivity.
+Qed.
+
+(* rpmCheckIndex rejects no well-formed layout *)
+Lemma check_index_gencode : forall g, gpkg_ok g = true -> check_index (gencode g) = Ok tt.
+Proof.
+  intros g Hok. apply gpkg_ok_facts in Hok as F.
+  unfold check_index, gencode.
+  rewrite skipn_app_exact by (rewrite length_glead by exact F; reflexivity).
+  rewrite check_header_genc by exact (gf_sig g F). cbn [bind].
+  rewrite <- (gf_pad g F), to_nat_lenN, skipn_app_exact by reflexivity.
+  rewrite check_header_genc by exact (gf_main g F). reflexivity.
+Qed.
+
+(* ================================================================ arbitrary layouts: what RPMFile reports *)
+
+Lemma index_by_tag_gview : forall store tag idx,
+  index_by_tag tag (map (gent_view store) idx) = option_map (gent_view store) (first_with_tag tag idx).
+Proof.
+  intros store tag. unfold first_with_tag. induction idx as [|e r IH]; [reflexivity|].
+  cbn [map index_by_tag find gent_view e_tag]. destruct (ge_tag e =? tag); [reflexivity|apply IH].
+Qed.
+
+Lemma string_by_tag_gview : forall h tag,
+  string_by_tag true tag (h_entries (ghdr_view h)) = Ok (stored_string h tag).
+Proof.
+  intros h tag. unfold string_by_tag, stored_string, ghdr_view. cbn [h_entries].
+  rewrite index_by_tag_gview. destruct (first_with_tag tag (gh_index h)) as [e|]; [|reflexivity].
+  cbn [option_map gent_view e_val]. unfold gent_value. cbv zeta.
+  destruct (ge_type e =? 0) eqn:E0.
+  { assert (Es : is_string_type (ge_type e) = false) by (unfold is_string_type; lia). rewrite Es. reflexivity. }
+  destruct ((ge_type e =? 1) || (ge_type e =? 7)) eqn:E17.
+  { assert (Es : is_string_type (ge_type e) = false) by (unfold is_string_type; lia). rewrite Es. reflexivity. }
+  destruct (is_fixed_type (ge_type e)) eqn:Ef.
+  { assert (Es : is_string_type (ge_type e) = false) by (unfold is_string_type, is_fixed_type in *; lia).
+    rewrite Es. reflexivity. }
+  destruct (is_string_type (ge_type e)); [|reflexivity].
+  destruct (strings_at _ _) as [[|s l]|]; reflexivity.
+Qed.
+
+Lemma bytes_by_tag_gview : forall h tag,
+  bytes_by_tag true tag (h_entries (ghdr_view h)) = Ok (stored_bytes h tag).
+Proof.
+  intros h tag. unfold bytes_by_tag, stored_bytes, ghdr_view. cbn [h_entries].
+  rewrite index_by_tag_gview. destruct (first_with_tag tag (gh_index h)) as [e|]; [|reflexivity].
+  cbn [option_map gent_view e_val]. unfold gent_value. cbv zeta.
+  destruct (ge_type e =? 0) eqn:E0.
+  { assert (E : ((ge_type e =? 7) || (ge_type e =? 1)) = false) by lia. rewrite E. reflexivity. }
+  rewrite (Bool.orb_comm (ge_type e =? 7)).
+  destruct ((ge_type e =? 1) || (ge_type e =? 7)); [reflexivity|].
+  destruct (is_fixed_type (ge_type e)); [reflexivity|]. destruct (is_string_type (ge_type e)); reflexivity.
+Qed.
+
+Lemma sig_child_gview : forall other sa desc h tag,
+  (stored_bytes h tag <> [] -> sig_attrs cfg_now other (stored_bytes h tag) = Ok (sa tag)) ->
+  sig_child cfg_now other desc (h_entries (ghdr_view h)) tag = Ok (gsig_child sa desc h tag).
+Proof.
+  intros other sa desc h tag Hsa. unfold sig_child, gsig_child. cbn [cfg_now cfg_checked].
+  rewrite bytes_by_tag_gview. cbn [bind].
+  destruct (stored_bytes h tag) as [|b r] eqn:E; [reflexivity|].
+  fold cfg_now. rewrite Hsa by discriminate. reflexivity.
+Qed.
+
+(* RPMFile on EVERY well-formed layout: identity strings and digests exactly as they lie in the
+   stores; one entry per signature tag that holds octets, with whatever attributes [sa]
+   rpmSignatureAttributes shows for those octets *)
+Lemma describe_gencode_with : forall other sa g, gpkg_ok g = true ->
+  (forall tag, In tag [267; 268; 1005; 1002] -> stored_bytes (gp_sig g) tag <> [] ->
+     sig_attrs cfg_now other (stored_bytes (gp_sig g) tag) = Ok (sa tag)) ->
+  describe other (gencode g) = Ok (greport_with sa g).
+Proof.
+  intros other sa g Hok Hsa.
+  unfold describe, describe_gen. unfold cfg_now at 1 2 3 4 5 6 7 8 9 10 11.
+  cbn [cfg_validate cfg_checked cfg_noregion].
+  rewrite check_index_gencode by exact Hok. cbn [bind].
+  rewrite parse_gencode by exact Hok. cbn [bind]. cbv zeta.
+  cbn [gview p_main p_sig].
+  rewrite (string_by_tag_gview (gp_main g) 1064), (string_by_tag_gview (gp_main g) 1000),
+    (string_by_tag_gview (gp_main g) 1001), (string_by_tag_gview (gp_main g) 1002),
+    (string_by_tag_gview (gp_main g) 1022). cbn [bind].
+  rewrite Bool.orb_true_r. cbn [negb].
+  rewrite (bytes_by_tag_gview (gp_sig g) 1004), (string_by_tag_gview (gp_sig g) 269), (string_by_tag_gview (gp_sig g) 273).
+  cbn [bind].
+  rewrite (sig_child_gview other sa _ (gp_sig g) 267) by (apply Hsa; cbn; tauto).
+  rewrite (sig_child_gview other sa _ (gp_sig g) 268) by (apply Hsa; cbn; tauto).
+  rewrite (sig_child_gview other sa _ (gp_sig g) 1005) by (apply Hsa; cbn; tauto).
+  rewrite (sig_child_gview other sa _ (gp_sig g) 1002) by (apply Hsa; cbn; tauto).
+  cbn [bind]. unfold greport_with. fold (greport_children sa g). rewrite <- !app_assoc.
+  destruct (stored_string (gp_main g) 1064); reflexivity.
+Qed.
+
+(* ================================================================ signature packets in every form *)
+
+(* ---- subpackets ---- *)
+
+Definition sub_body (f : nat) (emb : bool) (st : sstate) (sp : bytes) (hashed : bool) : result sstate :=
+  let* (len, body) := subpacket_length sp in
+  if lenN body <? len then Err "signature subpacket truncated"
+  else
+    let rest := skipn (N.to_nat len) body in
+    match firstn (N.to_nat len) body with
+    | [] => Err "zero length signature subpacket"
+    | t0 :: payload =>
+        let ty := t0 mod 128 in
+        let critical := 128 <=? t0 in
+        let plen := length payload in
+        let continue (st' : sstate) := parse_subpackets f emb st' rest hashed in
+        if ty =? 2 then
+          if negb hashed then Err "signature creation time in non-hashed area"
+          else if negb (Nat.eqb plen 4) then Err "signature creation time not four bytes"
+          else continue (mksstate true (ss_issuer st) (ss_embedded st))
+        else if (ty =? 3) || (ty =? 9) then
+          if negb hashed then continue st
+          else if negb (Nat.eqb plen 4) then Err "expiration subpacket with bad length"
+          else continue st
+        else if (ty =? 11) || (ty =? 21) || (ty =? 22) || (ty =? 30) then continue st
+        else if ty =? 16 then
+          if negb (Nat.eqb plen 8) then Err "issuer subpacket with bad length"
+          else continue (mksstate (ss_created st) (Some (be_to_N payload)) (ss_embedded st))
+        else if ty =? 25 then
+          if negb hashed then continue st
+          else if negb (Nat.eqb plen 1) then Err "primary user id subpacket with bad length"
+          else continue st
+        else if (ty =? 27) || (ty =? 29) then
+          if negb hashed then continue st
+          else if Nat.eqb plen 0 then Err "empty subpacket"
+          else continue st
+        else if ty =? 32 then
+          if ss_embedded st then Err "Cannot have multiple embedded signatures"
+          else if emb then Err "embedded signature inside an embedded signature"
+          else
+            let* e := parse_sig4 f true payload in
+            match e with
+            | PSig4 et _ _ _ =>
+                if et =? 25 then continue (mksstate (ss_created st) (ss_issuer st) true)
+                else Err "cross-signature has unexpected type"
+            | _ => Err "cross-signature has unexpected type"
+            end
+        else if critical then Err "unknown critical signature subpacket type"
+        else continue st
+    end.
+
+Lemma parse_subpackets_S : forall f emb st sp hashed, sp <> [] ->
+  parse_subpackets (S f) emb st sp hashed = sub_body f emb st sp hashed.
+Proof. intros f emb st [|x sp] hashed H; [contradiction|reflexivity]. Qed.
+
+Lemma be_to_N_4 : forall n, n < 4294967296 ->
+  exists b1 b2 b3 b4, N_to_be 4 n = [b1; b2; b3; b4] /\ be_to_N [b1; b2; b3; b4] = n.
+Proof.
+  intros n H. pose proof (length_N_to_be 4 n) as L. pose proof (be_to_N_to_be4 n H) as E.
+  destruct (N_to_be 4 n) as [|b1 [|b2 [|b3 [|b4 [|]]]]]; try discriminate.
+  exists b1, b2, b3, b4. split; [reflexivity|exact E].
+Qed.
+
+Lemma subpacket_length_enc : forall form n tail, sub_len_ok form n = true ->
+  subpacket_length (sub_len_enc form n ++ tail) = Ok (n, tail).
+Proof.
+  intros form n tail H. unfold sub_len_ok in H. unfold sub_len_enc, subpacket_length.
+  destruct (form =? 1).
+  - cbn [app]. rewrite H. reflexivity.
+  - destruct (form =? 2).
+    + cbn [app]. apply andb_prop in H as [H1 H2].
+      assert (Hq : (n - 192) / 256 < 63) by (apply N.div_lt_upper_bound; lia).
+      assert (X1 : (192 + (n - 192) / 256 <? 192) = false) by lia.
+      assert (X2 : (192 + (n - 192) / 256 <? 255) = true) by lia.
+      rewrite X1, X2. f_equal. f_equal. pose proof (N.div_mod (n - 192) 256). lia.
+    + apply andb_prop in H as [_ H]. destruct (be_to_N_4 n ltac:(lia)) as (b1 & b2 & b3 & b4 & E & Ev).
+      rewrite E. cbn [app]. change (255 <? 192) with false. change (255 <? 255) with false. cbv iota.
+      rewrite Ev. reflexivity.
+Qed.
+
+Definition sub_step (st : sstate) (sp : subpkt) : sstate :=
+  let ty := sb_type sp mod 128 in
+  if ty =? 2 then mksstate true (ss_issuer st) (ss_embedded st)
+  else if ty =? 16 then mksstate (ss_created st) (Some (be_to_N (sb_data sp))) (ss_embedded st)
+  else st.
+
+Lemma enc_sub_nonempty : forall sp rest, enc_sub sp ++ rest <> [].
+Proof.
+  intros sp rest E. apply (f_equal (@length N)) in E. unfold enc_sub in E.
+  rewrite !app_length in E. cbn [length] in E. lia.
+Qed.
+
+Lemma parse_sub_step : forall f emb st sp rest hashed, sub_ok hashed sp = true ->
+  parse_subpackets (S f) emb st (enc_sub sp ++ rest) hashed = parse_subpackets f emb (sub_step st sp) rest hashed.
+Proof.
+  intros f emb st sp rest hashed H. rewrite parse_subpackets_S by apply enc_sub_nonempty.
+  unfold sub_ok in H. cbv zeta in H.
+  apply andb_prop in H as [H Hty]. apply andb_prop in H as [Hb Hlen].
+  unfold sub_body, enc_sub. rewrite <- app_assoc. rewrite subpacket_length_enc by exact Hlen. cbn [bind].
+  set (data := sb_data sp) in *. set (t0 := sb_type sp) in *.
+  assert (Hl : (lenN ((t0 :: data) ++ rest) <? 1 + lenN data) = false)
+    by (rewrite lenN_app, lenN_cons; lia).
+  rewrite Hl. cbv zeta.
+  replace (N.to_nat (1 + lenN data)) with (length (t0 :: data)) by (cbn [length]; unfold lenN; lia).
+  rewrite firstn_app_exact, skipn_app_exact by reflexivity.
+  unfold sub_step. fold t0 data.
+  destruct (t0 mod 128 =? 2) eqn:E2.
+  { apply andb_prop in Hty as [Hh Hn]. rewrite Hh, Hn. reflexivity. }
+  destruct ((t0 mod 128 =? 3) || (t0 mod 128 =? 9)) eqn:E39.
+  { assert (E16 : (t0 mod 128 =? 16) = false) by lia. rewrite E16.
+    destruct hashed; cbn [negb orb] in *; [rewrite Hty|]; reflexivity. }
+  destruct (t0 mod 128 =? 16) eqn:E16.
+  { assert (X : ((t0 mod 128 =? 11) || (t0 mod 128 =? 21) || (t0 mod 128 =? 22) || (t0 mod 128 =? 30)) = false) by lia.
+    rewrite X, Hty. reflexivity. }
+  destruct ((t0 mod 128 =? 11) || (t0 mod 128 =? 21) || (t0 mod 128 =? 22) || (t0 mod 128 =? 30)) eqn:E11; [reflexivity|].
+  destruct (t0 mod 128 =? 25) eqn:E25.
+  { destruct hashed; cbn [negb orb] in *; [rewrite Hty|]; reflexivity. }
+  destruct ((t0 mod 128 =? 27) || (t0 mod 128 =? 29)) eqn:E27.
+  { destruct hashed; cbn [negb orb] in *; [|reflexivity].
+    destruct (Nat.eqb (length data) 0); [discriminate|reflexivity]. }
+  destruct (t0 mod 128 =? 32) eqn:E32; [discriminate|].
+  assert (Hc : (128 <=? t0) = false) by lia. rewrite Hc. reflexivity.
+Qed.
+
+Lemma length_enc_sub_pos : forall sp, (1 <= length (enc_sub sp))%nat.
+Proof. intros. unfold enc_sub. rewrite app_length. cbn [length]. lia. Qed.
+
+Lemma parse_subs_enc : forall sps fuel emb st hashed,
+  forallb (sub_ok hashed) sps = true -> (length (enc_subs sps) <= fuel)%nat ->
+  parse_subpackets fuel emb st (enc_subs sps) hashed = Ok (fold_left sub_step sps st).
+Proof.
+  induction sps as [|sp r IH]; intros fuel emb st hashed H Hf.
+  - apply parse_subpackets_nil.
+  - cbn [forallb] in H. apply andb_prop in H as [Hs Hr].
+    unfold enc_subs in *. cbn [flat_map fold_left] in *. rewrite app_length in Hf.
+    pose proof (length_enc_sub_pos sp).
+    destruct fuel as [|f]; [lia|].
+    rewrite parse_sub_step by exact Hs. apply IH; [exact Hr|lia].
+Qed.
+
+Lemma sub_step_created : forall sps st,
+  ss_created (fold_left sub_step sps st) = ss_created st || existsb (fun sp => sb_type sp mod 128 =? 2) sps.
+Proof.
+  induction sps as [|sp r IH]; intros st; [cbn; rewrite Bool.orb_false_r; reflexivity|].
+  cbn [fold_left existsb]. rewrite IH. unfold sub_step. cbv zeta.
+  destruct (sb_type sp mod 128 =? 2); cbn [ss_created orb]; [rewrite Bool.orb_true_r; reflexivity|].
+  destruct (sb_type sp mod 128 =? 16); reflexivity.
+Qed.
+
+Lemma sub_step_issuer : forall sps st,
+  ss_issuer (fold_left sub_step sps st) = fold_left sub_issuer sps (ss_issuer st).
+Proof.
+  induction sps as [|sp r IH]; intros st; [reflexivity|].
+  cbn [fold_left]. rewrite IH. f_equal. unfold sub_step, sub_issuer. cbv zeta.
+  destruct (sb_type sp mod 128 =? 2) eqn:E2.
+  - assert (E16 : (sb_type sp mod 128 =? 16) = false) by lia. rewrite E16. reflexivity.
+  - destruct (sb_type sp mod 128 =? 16); reflexivity.
+Qed.
+
+(* ---- packet headers ---- *)
+
+Lemma pkt_header_old : forall lt body, lt <= 2 -> lenN body < 256 ^ (2 ^ lt) ->
+  read_pkt_header ((136 + lt) :: N_to_be (N.to_nat (2 ^ lt)) (lenN body) ++ body) = Ok (2, body).
+Proof.
+  intros lt body Hlt Hn.
+  assert (Hc : lt = 0 \/ lt = 1 \/ lt = 2) by lia.
+  destruct Hc as [->|[->| ->]]; unfold read_pkt_header; cbv zeta.
+  - change (136 + 0) with 136. change (136 <? 128) with false. change ((136 / 64) mod 2 =? 0) with true.
+    change ((136 mod 64) / 4) with 2. change (136 mod 4) with 0. change (0 =? 3) with false. cbv iota.
+    change (N.to_nat (2 ^ 0)) with 1%nat. rewrite need_app by (rewrite length_N_to_be; reflexivity). cbn [bind].
+    rewrite (be_to_N_to_be 1) by exact Hn. rewrite firstn_N_all. reflexivity.
+  - change (136 + 1) with 137. change (137 <? 128) with false. change ((137 / 64) mod 2 =? 0) with true.
+    change ((137 mod 64) / 4) with 2. change (137 mod 4) with 1. change (1 =? 3) with false. cbv iota.
+    change (N.to_nat (2 ^ 1)) with 2%nat. rewrite need_app by (rewrite length_N_to_be; reflexivity). cbn [bind].
+    rewrite (be_to_N_to_be 2) by exact Hn. rewrite firstn_N_all. reflexivity.
+  - change (136 + 2) with 138. change (138 <? 128) with false. change ((138 / 64) mod 2 =? 0) with true.
+    change ((138 mod 64) / 4) with 2. change (138 mod 4) with 2. change (2 =? 3) with false. cbv iota.
+    change (N.to_nat (2 ^ 2)) with 4%nat. rewrite need_app by (rewrite length_N_to_be; reflexivity). cbn [bind].
+    rewrite (be_to_N_to_be 4) by exact Hn. rewrite firstn_N_all. reflexivity.
+Qed.
+
+Lemma pkt_header_indeterminate : forall body, read_pkt_header (139 :: body) = Ok (2, body).
+Proof. reflexivity. Qed.
+
+Lemma pkt_header_newform : forall f body, new_len_ok f (lenN body) = true ->
+  read_pkt_header (194 :: new_len_form f (lenN body) ++ body) = Ok (2, body).
+Proof.
+  intros f body H. unfold new_len_ok in H. unfold read_pkt_header, new_len_form.
+  change (194 <? 128) with false. change ((194 / 64) mod 2 =? 0) with false. change (194 mod 64) with 2.
+  cbv iota zeta. set (n := lenN body) in *.
+  destruct (f =? 1).
+  - cbn [app]. rewrite H. subst n. rewrite firstn_N_all. reflexivity.
+  - destruct (f =? 2).
+    + cbn [app]. apply andb_prop in H as [H1 H2].
+      assert (Hq : (n - 192) / 256 < 32) by (apply N.div_lt_upper_bound; lia).
+      assert (X1 : (192 + (n - 192) / 256 <? 192) = false) by lia.
+      assert (X2 : (192 + (n - 192) / 256 <? 224) = true) by lia.
+      rewrite X1, X2.
+      assert (Hv : (192 + (n - 192) / 256 - 192) * 256 + (n - 192) mod 256 + 192 = n).
+      { pose proof (N.div_mod (n - 192) 256). lia. }
+      rewrite Hv. subst n. rewrite firstn_N_all. reflexivity.
+    + apply andb_prop in H as [_ H].
+      cbn [app]. change (255 <? 192) with false. change (255 <? 224) with false. change (255 <? 255) with false.
+      cbv iota. rewrite need_app by (rewrite length_N_to_be; reflexivity). cbn [bind].
+      rewrite be_to_N_to_be4 by lia. subst n. rewrite firstn_N_all. reflexivity.
+Qed.
+
+Lemma partial_body_S : forall f chunk r,
+  partial_body (S f) chunk r =
+  if lenN r <=? chunk then r
+  else
+    let here := firstn (N.to_nat chunk) r in
+    match skipn (N.to_nat chunk) r with
+    | c :: r' =>
+        if c <? 192 then here ++ firstn_N c r'
+        else if c <? 224 then
+          match r' with
+          | d :: r'' => here ++ firstn_N ((c - 192) * 256 + d + 192) r''
+          | [] => here
+          end
+        else if c <? 255 then here ++ partial_body f (2 ^ (c mod 32)) r'
+        else
+          match r' with
+          | b1 :: b2 :: b3 :: b4 :: r'' => here ++ firstn_N (be_to_N [b1; b2; b3; b4]) r''
+          | _ => here
+          end
+    | [] => here
+    end.
+Proof. intros. cbn [partial_body]. destruct (lenN r <=? chunk); [reflexivity|]. destruct (skipn (N.to_nat chunk) r); reflexivity. Qed.
+
+Lemma new_len_form_nonempty : forall f n, (1 <= length (new_len_form f n))%nat.
+Proof. intros. unfold new_len_form. destruct (f =? 1); [cbn; lia|]. destruct (f =? 2); cbn [length]; lia. Qed.
+
+Lemma partial_chunks_nonempty : forall ks f body, (1 <= length (partial_chunks ks f body))%nat.
+Proof.
+  intros [|k r] f body; cbn [partial_chunks].
+  - rewrite app_length. pose proof (new_len_form_nonempty f (lenN body)). lia.
+  - cbn [length]. lia.
+Qed.
+
+Lemma firstn_skipn_lenN : forall (l : bytes) n, n <= lenN l ->
+  lenN (firstn (N.to_nat n) l) = n /\ lenN (skipn (N.to_nat n) l) = lenN l - n.
+Proof. intros l n H. unfold lenN in *. rewrite firstn_length, skipn_length. lia. Qed.
+
+Lemma mod32_224 : forall k, k <= 30 -> (224 + k) mod 32 = k.
+Proof.
+  intros k H. replace (224 + k) with (k + 7 * 32) by lia. rewrite N.mod_add by lia. apply N.mod_small. lia.
+Qed.
+
+(* the partial-body-length reader delivers exactly the body that was cut into chunks *)
+Lemma partial_body_chunks : forall ks k f body fuel,
+  k <= 30 -> 2 ^ k <= lenN body -> partial_ok ks f (lenN body - 2 ^ k) = true ->
+  (length (firstn (N.to_nat (2 ^ k)) body ++ partial_chunks ks f (skipn (N.to_nat (2 ^ k)) body)) <= fuel)%nat ->
+  partial_body fuel (2 ^ k) (firstn (N.to_nat (2 ^ k)) body ++ partial_chunks ks f (skipn (N.to_nat (2 ^ k)) body)) = body.
+Proof.
+  induction ks as [|k2 ks IH]; intros k f body fuel Hk Hle Hok Hfuel.
+  - destruct (firstn_skipn_lenN body (2 ^ k) Hle) as [HA HB].
+    set (A := firstn (N.to_nat (2 ^ k)) body) in *. set (B := skipn (N.to_nat (2 ^ k)) body) in *.
+    assert (Hbody : body = A ++ B) by (subst A B; symmetry; apply firstn_skipn).
+    cbn [partial_chunks partial_ok] in *. rewrite <- HB in Hok.
+    pose proof (new_len_form_nonempty f (lenN B)) as Hne.
+    rewrite !app_length in Hfuel. destruct fuel as [|fu]; [lia|].
+    rewrite partial_body_S.
+    assert (X : (lenN (A ++ new_len_form f (lenN B) ++ B) <=? 2 ^ k) = false)
+      by (rewrite !lenN_app; unfold lenN at 2; lia).
+    rewrite X. cbv zeta.
+    replace (N.to_nat (2 ^ k)) with (length A) by (unfold lenN in HA; lia).
+    rewrite firstn_app_exact, skipn_app_exact by reflexivity.
+    unfold new_len_ok in Hok. unfold new_len_form. set (n := lenN B) in *.
+    destruct (f =? 1).
+    + cbn [app]. rewrite Hok. subst n. rewrite firstn_N_all. symmetry. exact Hbody.
+    + destruct (f =? 2).
+      * cbn [app]. apply andb_prop in Hok as [H1 H2].
+        assert (Hq : (n - 192) / 256 < 32) by (apply N.div_lt_upper_bound; lia).
+        assert (X1 : (192 + (n - 192) / 256 <? 192) = false) by lia.
+        assert (X2 : (192 + (n - 192) / 256 <? 224) = true) by lia.
+        rewrite X1, X2.
+        assert (Hv : (192 + (n - 192) / 256 - 192) * 256 + (n - 192) mod 256 + 192 = n).
+        { pose proof (N.div_mod (n - 192) 256). lia. }
+        rewrite Hv. subst n. rewrite firstn_N_all. symmetry. exact Hbody.
+      * apply andb_prop in Hok as [_ Hok].
+        destruct (be_to_N_4 n ltac:(lia)) as (b1 & b2 & b3 & b4 & E & Ev). rewrite E.
+        cbn [app]. change (255 <? 192) with false. change (255 <? 224) with false. change (255 <? 255) with false.
+        cbv iota. rewrite Ev. subst n. rewrite firstn_N_all. symmetry. exact Hbody.
+  - destruct (firstn_skipn_lenN body (2 ^ k) Hle) as [HA HB].
+    set (A := firstn (N.to_nat (2 ^ k)) body) in *. set (B := skipn (N.to_nat (2 ^ k)) body) in *.
+    assert (Hbody : body = A ++ B) by (subst A B; symmetry; apply firstn_skipn).
+    cbn [partial_chunks partial_ok] in *. rewrite <- HB in Hok.
+    apply andb_prop in Hok as [Hok Hrest]. apply andb_prop in Hok as [Hk2 Hle2].
+    rewrite app_length in Hfuel. cbn [length] in Hfuel. destruct fuel as [|fu]; [lia|].
+    rewrite partial_body_S.
+    assert (X : (lenN (A ++ (224 + k2) :: firstn (N.to_nat (2 ^ k2)) B ++ partial_chunks ks f (skipn (N.to_nat (2 ^ k2)) B)) <=? 2 ^ k) = false)
+      by (rewrite lenN_app, lenN_cons; lia).
+    rewrite X. cbv zeta.
+    replace (N.to_nat (2 ^ k)) with (length A) by (unfold lenN in HA; lia).
+    rewrite firstn_app_exact, skipn_app_exact by reflexivity.
+    assert (X1 : (224 + k2 <? 192) = false) by lia. assert (X2 : (224 + k2 <? 224) = false) by lia.
+    assert (X3 : (224 + k2 <? 255) = true) by lia. rewrite X1, X2, X3.
+    rewrite mod32_224 by lia. rewrite IH; [symmetry; exact Hbody|lia|lia|exact Hrest|lia].
+Qed.
+
+Lemma pkt_header_partial : forall ks f body, partial_ok ks f (lenN body) = true ->
+  read_pkt_header (194 :: partial_chunks ks f body) = Ok (2, body).
+Proof.
+  intros [|k ks] f body H.
+  - cbn [partial_chunks partial_ok] in *. apply pkt_header_newform. exact H.
+  - cbn [partial_chunks partial_ok] in *.
+    apply andb_prop in H as [H Hrest]. apply andb_prop in H as [Hk Hle].
+    unfold read_pkt_header.
+    change (194 <? 128) with false. change ((194 / 64) mod 2 =? 0) with false. change (194 mod 64) with 2.
+    cbv iota zeta.
+    assert (X1 : (224 + k <? 192) = false) by lia. assert (X2 : (224 + k <? 224) = false) by lia.
+    assert (X3 : (224 + k <? 255) = true) by lia. rewrite X1, X2, X3.
+    rewrite mod32_224 by lia. rewrite partial_body_chunks; [reflexivity|lia|lia|exact Hrest|lia].
+Qed.
+
+Lemma pkt_header_wrap : forall pf body, pform_ok pf (lenN body) = true ->
+  read_pkt_header (wrap_sig pf body) = Ok (2, body).
+Proof.
+  intros pf body H. unfold pform_ok in H. apply andb_prop in H as [Hn H].
+  destruct pf as [lt|f|ks f]; cbn [wrap_sig].
+  - destruct (lt =? 3) eqn:E3.
+    + apply N.eqb_eq in E3. subst lt. apply pkt_header_indeterminate.
+    + cbn [orb] in H. apply andb_prop in H as [H1 H2]. apply pkt_header_old; lia.
+  - apply pkt_header_newform. exact H.
+  - apply pkt_header_partial. exact H.
+Qed.
+
+(* ---- signature bodies ---- *)
+
+
+Record gsig_facts (s : gsig) : Prop := mk_gsig_facts {
+  sf_hash : hash_known (gs_hash s) = true;
+  sf_tag : length (gs_hashtag s) = 2%nat;
+  sf_mpis : exists k, sig_mpis (gs_algo s) = Some k /\ length (gs_mpis s) = k;
+  sf_mpilen : forallb mpib_ok (gs_mpis s) = true;
+  sf_form : pform_ok (gs_form s) (lenN (gsig_body s)) = true;
+  sf_version : if gs_version s <? 4 then
+      2 <= gs_version s /\ sig3_algo_ok (gs_algo s) = true /\ gs_issuer s < 2 ^ 64 /\ gs_created s < 2 ^ 32
+    else
+      gs_version s = 4 /\ sig4_algo_ok (gs_algo s) = true
+      /\ forallb (sub_ok true) (gs_hashed s) = true /\ forallb (sub_ok false) (gs_unhashed s) = true
+      /\ existsb (fun sp => sb_type sp mod 128 =? 2) (gs_hashed s) = true
+      /\ lenN (enc_subs (gs_hashed s)) < 65536 /\ lenN (enc_subs (gs_unhashed s)) < 65536 }.
+
+Lemma gsig_ok_facts : forall s, gsig_ok s = true -> gsig_facts s.
+Proof.
+  intros s H. unfold gsig_ok in H.
+  apply andb_prop in H as [H Hv]. apply andb_prop in H as [H Hf]. apply andb_prop in H as [H Hm].
+  apply andb_prop in H as [H Hk]. apply andb_prop in H as [Hh Ht].
+  constructor; try assumption.
+  - apply Nat.eqb_eq. exact Ht.
+  - destruct (sig_mpis (gs_algo s)) as [k|]; [|discriminate]. exists k. split; [reflexivity|apply Nat.eqb_eq; exact Hk].
+  - destruct (gs_version s <? 4).
+    + apply andb_prop in Hv as [Hv H4]. apply andb_prop in Hv as [Hv H3]. apply andb_prop in Hv as [H1 H2].
+      repeat split; try assumption; lia.
+    + apply andb_prop in Hv as [Hv H7]. apply andb_prop in Hv as [Hv H6]. apply andb_prop in Hv as [Hv H5].
+      apply andb_prop in Hv as [Hv H4]. apply andb_prop in Hv as [Hv H3]. apply andb_prop in Hv as [H1 H2].
+      repeat split; try assumption; lia.
+Qed.
+
+Lemma be16_split : forall n, n < 65536 -> (n / 256) mod 256 * 256 + n mod 256 = n.
+Proof.
+  intros n H. rewrite (N.mod_small (n / 256)) by (apply N.div_lt_upper_bound; lia).
+  pose proof (N.div_mod n 256). lia.
+Qed.
+
+Lemma read_mpi_encb : forall m rest, mpib_ok m = true -> read_mpi (enc_mpib m ++ rest) = Ok rest.
+Proof.
+  intros [b m] rest H. unfold mpib_ok in H. cbn [fst snd] in H. apply andb_prop in H as [Hb Hl].
+  unfold read_mpi, enc_mpib. cbn [fst snd]. rewrite N_to_be_2.
+  cbn [app]. unfold need at 1. cbn [length Nat.ltb Nat.leb firstn skipn bind nth].
+  rewrite be16_split by lia. apply N.eqb_eq in Hl. rewrite <- Hl, to_nat_lenN, need_app by reflexivity. reflexivity.
+Qed.
+
+Lemma read_mpis_encb : forall mpis rest, forallb mpib_ok mpis = true ->
+  read_mpis (length mpis) (flat_map enc_mpib mpis ++ rest) = Ok tt.
+Proof.
+  induction mpis as [|m r IH]; intros rest H; [reflexivity|].
+  cbn [forallb] in H. apply andb_prop in H as [Hm Hr].
+  cbn [length read_mpis flat_map]. rewrite <- app_assoc.
+  rewrite read_mpi_encb by exact Hm. cbn [bind]. apply IH. exact Hr.
+Qed.
+
+Lemma parse_sig3_body : forall v t a h created issuer h1 h2 mpis k,
+  2 <= v -> v < 4 -> sig3_algo_ok a = true -> hash_known h = true -> sig_mpis a = Some k -> length mpis = k ->
+  forallb mpib_ok mpis = true -> issuer < 2 ^ 64 ->
+  parse_sig3 ([v; 5; t] ++ N_to_be 4 created ++ N_to_be 8 issuer ++ [a; h] ++ [h1; h2] ++ flat_map enc_mpib mpis)
+  = Ok (PSig3 a h issuer).
+Proof.
+  intros v t a h created issuer h1 h2 mpis k Hv2 Hv4 Ha Hh Hk Hlen Hm Hi.
+  remember (N_to_be 4 created) as C eqn:EC.
+  assert (HC : length C = 4%nat) by (subst C; apply length_N_to_be).
+  destruct C as [|c1 [|c2 [|c3 [|c4 [|]]]]]; try discriminate.
+  remember (N_to_be 8 issuer) as I eqn:EI.
+  assert (HI : length I = 8%nat) by (subst I; apply length_N_to_be).
+  destruct I as [|i1 [|i2 [|i3 [|i4 [|i5 [|i6 [|i7 [|i8 [|]]]]]]]]]; try discriminate.
+  assert (Hiss : be_to_N [i1; i2; i3; i4; i5; i6; i7; i8] = issuer) by (rewrite EI; apply be_to_N_to_be8; exact Hi).
+  cbn [app]. unfold parse_sig3.
+  assert (Xv : ((v <? 2) || (3 <? v)) = false) by lia. rewrite Xv.
+  change (5 =? 5) with true. cbn [negb].
+  unfold need at 1. cbn [length Nat.ltb Nat.leb firstn skipn bind].
+  unfold need at 1. cbn [length Nat.ltb Nat.leb firstn skipn bind].
+  unfold need at 1. cbn [length Nat.ltb Nat.leb firstn skipn bind nth].
+  rewrite Ha, Hh. cbn [negb].
+  unfold need at 1. cbn [length Nat.ltb Nat.leb firstn skipn bind].
+  rewrite Hk. subst k. rewrite <- (app_nil_r (flat_map enc_mpib mpis)).
+  rewrite read_mpis_encb by exact Hm. rewrite Hiss. reflexivity.
+Qed.
+
+Lemma parse_sig4_body : forall t a h hashed unhashed h1 h2 mpis k,
+  sig4_algo_ok a = true -> hash_known h = true -> sig_mpis a = Some k -> length mpis = k ->
+  forallb mpib_ok mpis = true ->
+  forallb (sub_ok true) hashed = true -> forallb (sub_ok false) unhashed = true ->
+  existsb (fun sp => sb_type sp mod 128 =? 2) hashed = true ->
+  lenN (enc_subs hashed) < 65536 -> lenN (enc_subs unhashed) < 65536 ->
+  let body := [4; t; a; h] ++ N_to_be 2 (lenN (enc_subs hashed)) ++ enc_subs hashed
+              ++ N_to_be 2 (lenN (enc_subs unhashed)) ++ enc_subs unhashed ++ [h1; h2] ++ flat_map enc_mpib mpis in
+  parse_sig4 (length body) false body = Ok (PSig4 t a h (fold_left sub_issuer (hashed ++ unhashed) None)).
+Proof.
+  intros t a h hashed unhashed h1 h2 mpis k Ha Hh Hk Hlen Hm Hsh Hsu Hct HlH HlU body. subst body.
+  rewrite !N_to_be_2. cbn [app length]. rewrite parse_sig4_S.
+  change (4 =? 4) with true. rewrite Ha, Hh. cbn [negb].
+  rewrite be16_split by exact HlH. rewrite to_nat_lenN.
+  rewrite need_app by reflexivity. cbn [bind].
+  rewrite parse_subs_enc; [|exact Hsh|rewrite !app_length; lia]. cbn [bind].
+  rewrite sub_step_created, Hct. cbn [ss_created orb negb].
+  unfold need at 1. cbn [length Nat.ltb Nat.leb firstn skipn bind nth].
+  rewrite be16_split by exact HlU. rewrite to_nat_lenN.
+  rewrite need_app by reflexivity. cbn [bind].
+  rewrite parse_subs_enc; [|exact Hsu|rewrite !app_length; cbn [length]; rewrite !app_length; lia]. cbn [bind].
+  unfold need at 1. cbn [length Nat.ltb Nat.leb firstn skipn bind].
+  rewrite Hk. subst k. rewrite <- (app_nil_r (flat_map enc_mpib mpis)).
+  rewrite read_mpis_encb by exact Hm. cbn [bind].
+  rewrite !sub_step_issuer. cbn [ss_issuer]. rewrite fold_left_app. reflexivity.
+Qed.
+
+(* packet.Read on a signature packet of any header form, version and subpacket arrangement *)
+Lemma packet_read_gencode : forall other s, gsig_ok s = true ->
+  packet_read other (gencode_sig s) = Ok (gsig_view s).
+Proof.
+  intros other s Hok. apply gsig_ok_facts in Hok as F.
+  destruct (sf_mpis s F) as (k & Hk & Hlen).
+  pose proof (sf_tag s F) as Ht. pose proof (sf_version s F) as Hv.
+  unfold packet_read, gencode_sig. rewrite pkt_header_wrap by exact (sf_form s F). cbn [bind].
+  change (2 =? 2) with true. cbv iota.
+  unfold gsig_body, gsig_view, gsig_issuer.
+  destruct (gs_hashtag s) as [|h1 [|h2 [|]]]; try discriminate.
+  destruct (gs_version s <? 4) eqn:E4.
+  - destruct Hv as (H2 & Ha & Hi & Hc).
+    cbn [app]. rewrite E4.
+    change (gs_version s :: 5 :: gs_sigtype s :: (N_to_be 4 (gs_created s) ++ N_to_be 8 (gs_issuer s) ++ [gs_algo s; gs_hash s]) ++ [h1; h2] ++ flat_map enc_mpib (gs_mpis s))
+      with (([gs_version s; 5; gs_sigtype s] ++ N_to_be 4 (gs_created s) ++ N_to_be 8 (gs_issuer s) ++ [gs_algo s; gs_hash s]) ++ [h1; h2] ++ flat_map enc_mpib (gs_mpis s)).
+    rewrite <- !app_assoc.
+    apply (parse_sig3_body _ _ _ _ _ _ _ _ _ k); try assumption; try lia. apply (sf_hash s F). apply (sf_mpilen s F).
+  - destruct Hv as (H4 & Ha & Hsh & Hsu & Hct & HlH & HlU).
+    cbn [app]. change (4 <? 4) with false. cbv iota.
+    pose proof (parse_sig4_body (gs_sigtype s) (gs_algo s) (gs_hash s) (gs_hashed s) (gs_unhashed s) h1 h2 (gs_mpis s) k
+                  Ha (sf_hash s F) Hk Hlen (sf_mpilen s F) Hsh Hsu Hct HlH HlU) as P.
+    cbv zeta in P. cbn [app] in P. rewrite <- !app_assoc. exact P.
+Qed.
+
+Lemma gsig_ok_algo : forall s, gsig_ok s = true ->
+  (sig4_algo_ok (gs_algo s) = true \/ sig3_algo_ok (gs_algo s) = true) /\ hash_known (gs_hash s) = true.
+Proof.
+  intros s H. apply gsig_ok_facts in H as F. split; [|exact (sf_hash s F)].
+  pose proof (sf_version s F) as Hv. destruct (gs_version s <? 4); [right|left]; tauto.
+Qed.
+
+Lemma sig_attrs_gencode : forall other s, gsig_ok s = true ->
+  sig_attrs cfg_now other (gencode_sig s) = Ok (gsig_report s).
+Proof.
+  intros other s H. unfold sig_attrs. rewrite packet_read_gencode by exact H.
+  destruct (gsig_ok_algo s H) as [Ha Hh].
+  unfold gsig_view, gsig_report, gsig_issuer. destruct (gs_version s <? 4); rewrite algo_name_now by assumption; reflexivity.
+Qed.
+
+(* ================================================================ C19_faithful for arbitrary layouts *)
+
+Lemma bytes_eqb_true : forall a b, bytes_eqb a b = true -> a = b.
+Proof.
+  induction a as [|x a IH]; intros [|y b] H; cbn [bytes_eqb] in H; try discriminate; [reflexivity|].
+  apply andb_prop in H as [H1 H2]. apply N.eqb_eq in H1. subst y. f_equal. apply IH. exact H2.
+Qed.
+
+Lemma gsig_stored_attrs : forall other g sg tag, gsig_stored g sg tag = true ->
+  stored_bytes (gp_sig g) tag <> [] ->
+  sig_attrs cfg_now other (stored_bytes (gp_sig g) tag)
+  = Ok (match sig_at sg tag with Some s => gsig_report s | None => [] end).
+Proof.
+  intros other g sg tag H Hne. unfold gsig_stored in H.
+  destruct (sig_at sg tag) as [s|].
+  - apply andb_prop in H as [Hok He]. apply bytes_eqb_true in He. rewrite He. apply sig_attrs_gencode. exact Hok.
+  - destruct (stored_bytes (gp_sig g) tag); [contradiction|discriminate].
+Qed.
+
+Lemma describe_gencode : forall other g sg, gpkg_ok g = true -> gsigs_ok g sg = true ->
+  describe other (gencode g) = Ok (greport g sg).
+Proof.
+  intros other g sg Hok Hs. unfold greport. apply describe_gencode_with; [exact Hok|].
+  unfold gsigs_ok in Hs.
+  apply andb_prop in Hs as [Hs H4]. apply andb_prop in Hs as [Hs H3]. apply andb_prop in Hs as [H1 H2].
+  intros tag [<-|[<-|[<-|[<-|[]]]]] Hne; apply gsig_stored_attrs; assumption.
+Qed.
+
+(* well-formed layouts: reported as unsigned iff none of the four signature tags holds octets *)
+Lemma greport_children_nil : forall sa g,
+  greport_children sa g = [] <->
+  (stored_bytes (gp_sig g) 267 = [] /\ stored_bytes (gp_sig g) 268 = [] /\
+   stored_bytes (gp_sig g) 1005 = [] /\ stored_bytes (gp_sig g) 1002 = []).
+Proof.
+  intros sa g. unfold greport_children, gsig_child.
+  destruct (stored_bytes (gp_sig g) 267), (stored_bytes (gp_sig g) 268),
+           (stored_bytes (gp_sig g) 1005), (stored_bytes (gp_sig g) 1002); cbn; split; intros H;
+    try discriminate; try (destruct H as (H1 & H2 & H3 & H4); discriminate); auto.
+Qed.
+
+Lemma unsigned_layout : forall other g sg, gpkg_ok g = true -> gsigs_ok g sg = true ->
+  exists i, describe other (gencode g) = Ok i /\
+    (In unsigned_attr (i_attrs i) <->
+       (stored_bytes (gp_sig g) 267 = [] /\ stored_bytes (gp_sig g) 268 = [] /\
+        stored_bytes (gp_sig g) 1005 = [] /\ stored_bytes (gp_sig g) 1002 = [])).
+Proof.
+  intros other g sg Hok Hs. exists (greport g sg). split; [apply describe_gencode; assumption|].
+  rewrite (unsigned_iff_no_children other (gencode g) (greport g sg) (describe_gencode other g sg Hok Hs)).
+  unfold greport, greport_with. cbn [i_children]. apply greport_children_nil.
+Qed.
+
+(* ================================================================ non-vacuity: a layout none of the canonical kind *)
+
+(* a version 3 DSA/SHA-1 packet with an old-format two-octet length *)
+Definition ex_gsig_v3 : gsig :=
+  mkgsig (FOld 1) 3 0 17 2 1700000000 207 [] [] [171; 205] [(9, [1; 2]); (2, [3])].
+(* a version 4 EdDSA/SHA-512 packet cut into partial body lengths 16 + 8 + a two-octet final length; issuer
+   fingerprint (33) and issuer in the hashed area, a second issuer in the unhashed area with a
+   five-octet subpacket length, a critical creation time *)
+Definition ex_gsig_v4 : gsig :=
+  mkgsig (FPartial [4; 3] 2) 4 0 22 10 0 0
+    [mksub 1 33 (4 :: repeat 170 20); mksub 1 130 [101; 83; 241; 0]; mksub 1 16 [0; 0; 0; 0; 0; 0; 0; 1]]
+    [mksub 5 16 [1; 35; 69; 103; 137; 171; 205; 239]; mksub 2 20 (repeat 7 200)]
+    [18; 52] [(20, [9; 9; 9]); (16, [8; 8])].
+(* only an issuer fingerprint: no issuer key ID is stored *)
+Definition ex_gsig_fpr : gsig :=
+  mkgsig (FNew 5) 4 0 1 8 0 0 [mksub 1 2 [0; 0; 0; 1]; mksub 1 33 (4 :: repeat 187 20)] [] [0; 0] [(3, [5])].
+
+Definition ex_sig_store : bytes :=
+  gencode_sig ex_gsig_v3 ++ [255] ++ bs "00112233445566778899aabbccddeeff00112233" ++ [0]
+  ++ gencode_sig ex_gsig_v4 ++ [1; 2; 3; 4; 5; 6; 7; 8; 9; 10; 11; 12; 13; 14; 15; 16] ++ gencode_sig ex_gsig_fpr ++ [9; 9].
+
+Definition ex_gpkg : gpkg :=
+  let o1 := lenN (gencode_sig ex_gsig_v3) + 1 in
+  let o2 := o1 + 41 in
+  let o3 := o2 + lenN (gencode_sig ex_gsig_v4) in
+  let o4 := o3 + 16 in
+  let sigh := mkghdr 1 [0; 0; 0; 0]
+    [mkgent 1004 7 o3 16; mkgent 1005 7 0 (lenN (gencode_sig ex_gsig_v3)); mkgent 269 6 o1 1;
+     mkgent 267 7 o2 (lenN (gencode_sig ex_gsig_v4)); mkgent 268 7 o4 (lenN (gencode_sig ex_gsig_fpr));
+     mkgent 1005 7 o2 3; mkgent 1007 2 o3 4]
+    ex_sig_store in
+  let mains := bs "noarch" ++ [0; 255; 0; 0; 4; 210] ++ bs "dummy" ++ [0] ++ bs "0.0.1" ++ [0] ++ bs "1" ++ [0]
+               ++ bs "a" ++ [0] ++ bs "bb" ++ [0; 255; 0; 0; 1; 0; 0; 0; 0; 0]
+               ++ region_trailer 63 12 ++ [7; 7; 7] in
+  let mainh := mkghdr 1 [0; 0; 0; 0]
+    [mkgent 63 7 40 16; mkgent 1022 6 0 1; mkgent 1009 4 8 1; mkgent 1000 6 12 1; mkgent 5000 7 12 6;
+     mkgent 1001 6 18 1; mkgent 1002 6 24 1; mkgent 1117 8 26 2; mkgent 5009 5 32 1; mkgent 5012 0 58 0;
+     mkgent 5013 3 8 2; mkgent 1004 9 12 1]
+    mains in
+  mkgpkg 4 0 (repeat 0 90) sigh (repeat 0 (N.to_nat (pad_len (lenN ex_sig_store)))) mainh [1; 2; 3; 4; 5].
+
+Definition ex_gsigs : gsigs := mkgsigs (Some ex_gsig_v4) (Some ex_gsig_fpr) (Some ex_gsig_v3) None.
+
+Lemma ex_gpkg_ok : gpkg_ok ex_gpkg = true /\ gsigs_ok ex_gpkg ex_gsigs = true.
+Proof. split; vm_compute; reflexivity. Qed.
+
+Lemma ex_gpkg_report :
+  describe no_other (gencode ex_gpkg) =
+  Ok (Info (bs "RPM")
+        [(bs "Name", bs "dummy"); (bs "Version", bs "0.0.1"); (bs "Release", bs "1"); (bs "Architecture", bs "noarch");
+         (bs "MD5", bs "0102030405060708090a0b0c0d0e0f10");
+         (bs "SHA-1", bs "00112233445566778899aabbccddeeff00112233")]
+        [Info (bs "Signature") [(bs "Algorithm", bs "EdDSA/SHA-512"); (bs "Key id", bs "0123456789ABCDEF")] [];
+         Info (bs "Signature") [(bs "Algorithm", bs "RSA/SHA-256")] [];
+         Info (bs "Legacy signature (RPM v3)") [(bs "Algorithm", bs "DSA/SHA-1"); (bs "Key id", bs "00000000000000CF")] []]).
+Proof. vm_compute. reflexivity. Qed.
